@@ -1111,6 +1111,8 @@ pub struct RefProg {
     pub pipe: Vec<PipeOp>,
     /// In declaration (textual) order.
     pub readers: Vec<Reader>,
+    /// Referencing closures are written BEFORE the state pipeline in the program text.
+    pub readers_first: bool,
 }
 
 impl RefProg {
@@ -1190,34 +1192,43 @@ impl RefProg {
             let all: String = self.pipe.iter().map(op_txt).collect();
             format!("s0{all}")
         };
+        let mut stt = String::new();
         match self.state {
-            StateKind::Fold(st) => s.push_str(&format!(
+            StateKind::Fold(st) => stt.push_str(&format!(
                 "{pad}st = {sp} -> map(|x: It| x.0 as u32) -> fold::<{}>(|| 0u32, |a: &mut u32, x: u32| {{ *a = *a + 16 + x; }}) -> singleton();\n",
                 pers(st)
             )),
-            StateKind::Reduce(st) => s.push_str(&format!(
+            StateKind::Reduce(st) => stt.push_str(&format!(
                 "{pad}st = {sp} -> map(|x: It| x.0 as u32 + 16) -> reduce::<{}>(|a: &mut u32, x: u32| {{ *a = *a + x; }}) -> optional();\n",
                 pers(st)
             )),
             StateKind::Lattice(st) => {
-                s.push_str(&format!(
+                stt.push_str(&format!(
                     "{pad}stl = {sp} -> map(|x: It| dfir_rs::lattices::Max::new(x.0 as u32)) -> state::<{}, dfir_rs::lattices::Max<u32>>();\n",
                     pers(st)
                 ));
-                s.push_str(&format!("{pad}stl[items] -> null();\n"));
-                s.push_str(&format!("{pad}st = stl[state] -> singleton();\n"));
+                stt.push_str(&format!("{pad}stl[items] -> null();\n"));
+                stt.push_str(&format!("{pad}st = stl[state] -> singleton();\n"));
             }
         }
         // The tee needs at least ... every shared reader hangs off it; keep one plain tap so that
         // the tee always has two outputs.
         s.push_str(&format!("{pad}s0 -> for_each(|x: It| io.item(0, context.current_tick().0, x));\n"));
+        let mut rdt = String::new();
         for rd in &self.readers {
             let src = if rd.shared_input {
                 "s0".to_string()
             } else {
                 format!("source_stream(rx{})", self.reader_source(rd.id).unwrap())
             };
-            s.push_str(&format!("{pad}{src} -> {} -> for_each(|_x: It| ());\n", self.closure_text(rd)));
+            rdt.push_str(&format!("{pad}{src} -> {} -> for_each(|_x: It| ());\n", self.closure_text(rd)));
+        }
+        if self.readers_first {
+            s.push_str(&rdt);
+            s.push_str(&stt);
+        } else {
+            s.push_str(&stt);
+            s.push_str(&rdt);
         }
         s
     }
@@ -1383,6 +1394,7 @@ pub fn family_c25() -> Vec<RefProg> {
                 state: s,
                 pipe: vec![],
                 readers: vec![Reader { id: 0, kind: k, group: None, is_mut: false, shared_input: false }],
+                readers_first: false,
             });
         }
     }
@@ -1415,6 +1427,7 @@ pub fn family_c25() -> Vec<RefProg> {
                 state: s,
                 pipe: p.clone(),
                 readers: vec![Reader { id: 0, kind: k, group: None, is_mut: false, shared_input: shared }],
+                readers_first: false,
             });
         }
     }
@@ -1447,6 +1460,7 @@ pub fn family_c25() -> Vec<RefProg> {
                         state: s,
                         pipe: vec![],
                         readers: rs,
+                        readers_first: false,
                     });
                 }
             }
@@ -1470,6 +1484,7 @@ pub fn family_c25() -> Vec<RefProg> {
                 state: StateKind::Fold(false),
                 pipe: vec![],
                 readers: rs,
+                readers_first: false,
             });
         }
     }
@@ -1492,14 +1507,34 @@ pub fn family_c25() -> Vec<RefProg> {
                 state: StateKind::Fold(false),
                 pipe: vec![],
                 readers: rs,
+                readers_first: false,
             });
         }
     }
     for s in [StateKind::Fold(true), StateKind::Lattice(true)] {
         let rs: Vec<Reader> =
             [2usize, 0, 1].iter().map(|&i| Reader { id: i, kind: ck_of(i), group: Some(i as u32), is_mut: false, shared_input: i == 1 }).collect();
-        out.push(RefProg { name: format!("c25_static_sss_{}", state_name(s)), state: s, pipe: vec![Handoff], readers: rs });
+        out.push(RefProg { name: format!("c25_static_sss_{}", state_name(s)), state: s, pipe: vec![Handoff], readers: rs, readers_first: false });
     }
+    // F5. the same programs with the referencing closures written BEFORE the state pipeline
+    // (the reference alone must order the producer first): a subset of F1a, F2 and F3.
+    let rf: Vec<RefProg> = out
+        .iter()
+        .filter(|p| {
+            (p.name.starts_with("c25_settled_") && p.name.ends_with("_map"))
+                || (p.name.starts_with("c25_two_foldT_") && p.name.ends_with("_own"))
+                || p.name.starts_with("c25_three_msm_")
+                || p.name.starts_with("c25_pipe_union_shared")
+                || p.name.starts_with("c25_pipe_hoff+map_shared")
+        })
+        .map(|p| {
+            let mut q = p.clone();
+            q.name = format!("{}_rf", p.name);
+            q.readers_first = true;
+            q
+        })
+        .collect();
+    out.extend(rf);
     out
 }
 
